@@ -1,5 +1,6 @@
 # -*- coding: utf-8 -*-
 
+import copy
 import json
 from typing import (
     Any,
@@ -106,7 +107,12 @@ class ResolutionContext:
         """
         Register an error during the current execution.
         """
-        if node:
+        if any(registered is err for registered in self._errors):
+            # The same exception instance raised by several fields is reported
+            # once per field, each with its own path and location.
+            err = copy.copy(err)
+            err.nodes = [node] if node else err.nodes
+        elif node:
             if not err.nodes:
                 err.nodes = [node]
         err.path = path if path is not None else err.path
